@@ -178,11 +178,16 @@ class SetterInterp:
             lhs = strip(ks[0])
             if self._is_field(lhs):
                 self.sites.append((fname, loc_str(n), expr_str(n)))
+                op = n.get("opcode")
+                if op == "=":
+                    sym = self._sym(ks[1], env)
+                    if sym is None:
+                        return Xfer(x.A, x.O, FULL)
+                    return x.then(sym)
                 try:
                     c = ConstEval(self.prog, env).eval(ks[1]) & FULL
                 except NotConstant:
                     return Xfer(x.A, x.O, FULL)
-                op = n.get("opcode")
                 if op == "|=":
                     return x.then(Xfer(FULL, c))
                 if op == "&=":
@@ -219,6 +224,34 @@ class SetterInterp:
             # instance handed to a function we cannot summarise
             return Xfer(x.A, x.O, FULL)
         return x
+
+    def _sym(self, e, env):
+        """value of an expression as a transfer of the current field value:
+        the field itself, constants, and `&` / `|` of those"""
+        e = strip(e, casts=True)
+        if self._is_field(e):
+            return Xfer()
+        try:
+            return Xfer(0, ConstEval(self.prog, env).eval(e) & FULL)
+        except NotConstant:
+            pass
+        if e.get("kind") == "BinaryOperator" and e.get("opcode") in ("&", "|"):
+            a, b = self._sym(kids(e)[0], env), self._sym(kids(e)[1], env)
+            if a is None or b is None:
+                return None
+            # only field-op-constant shapes are bitwise-separable here
+            if a.A == 0 and b.A == 0:
+                v = (a.O & b.O) if e["opcode"] == "&" else (a.O | b.O)
+                return Xfer(0, v)
+            if a.A == 0:
+                a, b = b, a
+            if b.A != 0:
+                return None
+            c = b.O
+            if e["opcode"] == "&":
+                return Xfer(a.A & c, a.O & c, a.T)
+            return Xfer(a.A, a.O | c, a.T & ~c)
+        return None
 
     def _is_local(self, ref, fname):
         f = self.prog.fn(fname)
